@@ -1048,4 +1048,444 @@ theorem data_step (im : Impl) (ord : Ord) (hv : ord.Valid) (b b2 : Builder) (X :
       exact hres pe ((hsl s' pe).mpr (Or.inr ⟨rfl, rfl⟩)) rfl
     · exact old (Or.inr e1)
 
+
+/-! ### every call of the public Graph API preserves the invariant -/
+
+/-- the branch condition of `br` can take what its start node produces: for sure, or possibly
+    with the run-time check installed (`flag`) -/
+def SoundBr (im : Impl) (b : Builder) (br : BranchRec) (flag : Bool) : Prop :=
+  match checkAssignable im (b.nodeOut br.src) (some br.inTy) with
+  | .mustNot => False
+  | .may => flag = true
+  | .must => True
+
+theorem SoundBr.mono {im : Impl} {b b' : Builder} {br : BranchRec} {flag : Bool} (hm : Mono b b')
+    (h : SoundBr im b br flag) : SoundBr im b' br flag := by
+  unfold SoundBr at h ⊢
+  rcases ho : b.nodeOut br.src with _ | A
+  · simp [ho, checkAssignable] at h
+  · rw [ho] at h; rw [hm.tout _ A ho]; exact h
+
+structure Inv (im : Impl) (b : Builder) : Prop where
+  c : InvC im b []
+  brLen : b.branches.length = b.preBranch.length
+  br : ∀ p ∈ b.branches.zip (b.preBranch.map (·.2)), SoundBr im b p.1 p.2
+
+/-- calls the public `Graph` type can make: AddEdge has no mappings / noControl / noData,
+    AddBranch is not `skipData` -/
+def Op.isGraphApi : Op → Bool
+  | .node _ => true
+  | .edge _ _ nc nd m => !nc && !nd && m.isNone
+  | .branch _ _ _ sk => !sk
+  | .compile _ => true
+
+theorem findNode_append_ne (ns : List Node) (m : Node) (k : Key) (h : m.key ≠ k) :
+    findNode (ns ++ [m]) k = findNode ns k := by
+  induction ns with
+  | nil => simp [findNode, h]
+  | cons n ns ih =>
+    simp only [List.cons_append, findNode]
+    split
+    · rfl
+    · exact ih
+
+theorem findNode_append_some (ns : List Node) (m : Node) (k : Key) (n : Node) (h : findNode ns k = some n) :
+    findNode (ns ++ [m]) k = some n := by
+  induction ns with
+  | nil => simp [findNode] at h
+  | cons x ns ih =>
+    simp only [List.cons_append, findNode] at h ⊢
+    split
+    · rename_i hk; simp only [hk, ↓reduceIte] at h; exact h
+    · rename_i hk; simp only [hk, ↓reduceIte] at h; exact ih h
+
+theorem guarded_preserves {P : Builder → Prop} (g : Guards) (b : Builder) (body : Except ErrKind Builder)
+    (hP : P b) (hPe : ∀ k, P { b with buildError := some k }) (hbody : ∀ b', body = .ok b' → P b') :
+    P (guarded g b body).1 := by
+  unfold guarded
+  split
+  · exact hP
+  · split
+    · exact hP
+    · cases body with
+      | ok b' => exact hbody b' rfl
+      | error k =>
+        simp only
+        split
+        · exact hPe k
+        · exact hP
+
+theorem Inv.setErr {im : Impl} {b : Builder} (h : Inv im b) (k : ErrKind) : Inv im { b with buildError := some k } :=
+  ⟨⟨h.c.wf, h.c.i2, h.c.pn, h.c.conn⟩, h.brLen, h.br⟩
+
+theorem addNode_inv (f : Facts) (im : Impl) (b : Builder) (n : NodeSpec) (h : Inv im b) :
+    Inv im (addNode f b n).1 := by
+  unfold addNode
+  apply guarded_preserves (P := Inv im) _ _ _ h (fun k => h.setErr k)
+  intro b' hb
+  rcases hck : addNodeCheck b n with _ | k
+  · simp only [hck, Except.ok.injEq] at hb
+    subst hb
+    -- the key is new and not reserved
+    have hkey : n.key ≠ START ∧ n.key ≠ END ∧ b.hasNode n.key = false := by
+      unfold addNodeCheck at hck
+      by_cases h1 : (n.key = END || n.key = START) = true
+      · simp [h1] at hck
+      · simp only [h1] at hck
+        by_cases h2 : b.hasNode n.key = true
+        · simp [h2] at hck
+        · simp only [Bool.or_eq_true, decide_eq_true_eq, not_or] at h1
+          exact ⟨h1.2, h1.1, by simpa using h2⟩
+    obtain ⟨hk1, hk2, hk3⟩ := hkey
+    have hnk : (n.node).key = n.key := by unfold NodeSpec.node; split <;> rfl
+    let b' : Builder := { b with nodes := b.nodes ++ [n.node] }
+    have hfn : findNode b.nodes n.key = none := by
+      unfold Builder.hasNode at hk3
+      rcases hf : findNode b.nodes n.key with _ | x
+      · rfl
+      · simp [hf] at hk3
+    have hin : ∀ k, k ≠ n.key → b'.nodeIn k = b.nodeIn k := by
+      intro k hk
+      show (if k = START then some b.inT else if k = END then some b.outT else
+        match findNode (b.nodes ++ [n.node]) k with | some x => x.inTy | none => none) = b.nodeIn k
+      rw [findNode_append_ne _ _ _ (by rw [hnk]; exact fun e => hk e.symm)]; rfl
+    have hout : ∀ k, k ≠ n.key → b'.nodeOut k = b.nodeOut k := by
+      intro k hk
+      show (if k = START then some b.inT else if k = END then some b.outT else
+        match findNode (b.nodes ++ [n.node]) k with | some x => x.outTy | none => none) = b.nodeOut k
+      rw [findNode_append_ne _ _ _ (by rw [hnk]; exact fun e => hk e.symm)]; rfl
+    have hnone_in : b.nodeIn n.key = none := by simp [Builder.nodeIn, hk1, hk2, hfn]
+    have hnone_out : b.nodeOut n.key = none := by simp [Builder.nodeOut, hk1, hk2, hfn]
+    have hmono : Mono b b' := by
+      refine ⟨fun k t hk => ?_, fun k t hk => ?_, fun _ hx => hx⟩
+      · rw [hin k (fun e => by rw [e, hnone_in] at hk; simp at hk)]; exact hk
+      · rw [hout k (fun e => by rw [e, hnone_out] at hk; simp at hk)]; exact hk
+    have hhas : ∀ k, b.hasNode k = true → b'.hasNode k = true := by
+      intro k hk
+      unfold Builder.hasNode at hk ⊢
+      rcases hf : findNode b.nodes k with _ | x
+      · simp [hf] at hk
+      · show (findNode (b.nodes ++ [n.node]) k).isSome = true
+        rw [findNode_append_some _ _ _ _ hf]; rfl
+    have hne_of_has : ∀ k, b.hasNode k = true → k ≠ n.key := fun k hk e => by rw [e, hk3] at hk; simp at hk
+    refine ⟨⟨?_, ?_, ?_, ?_⟩, h.brLen, fun p hp => (h.br p hp).mono hmono⟩
+    · intro x hx
+      rcases List.mem_append.mp hx with hx | hx
+      · exact h.c.wf x hx
+      · simp only [List.mem_singleton] at hx
+        subst hx
+        unfold NodeSpec.node
+        split
+        · exact ⟨fun _ => rfl, fun hp => by simp at hp⟩
+        · exact ⟨fun hp => by simp at hp, fun _ => ⟨rfl, rfl⟩⟩
+    · intro s pe hpe
+      have h2 := h.c.i2 s pe hpe
+      have h3 := h.c.pn s pe hpe
+      exact ⟨by rw [hout s (hne_of_has s (h3.2.1 h2.1))]; exact h2.1,
+             by rw [hin pe.dst (hne_of_has _ (h3.1 h2.2))]; exact h2.2⟩
+    · intro s pe hpe
+      have h2 := h.c.i2 s pe hpe
+      have h3 := h.c.pn s pe hpe
+      exact ⟨fun _ => hhas _ (h3.1 h2.2), fun _ => hhas _ (h3.2.1 h2.1), h3.2.2⟩
+    · intro s e hc
+      rcases hc with hc | hc
+      · rcases h.c.conn s e (Or.inl hc) with hpd | hsd
+        · exact Or.inl hpd
+        · exact Or.inr (hsd.mono hmono)
+      · simp at hc
+  · simp [hck] at hb
+
+
+theorem compile_inv (f : Facts) (im : Impl) (ord : Ord) (b : Builder) (o : COpts) (h : Inv im b) :
+    Inv im (compile f ord b o).1 := by
+  have hm : Inv im (mutatePre f b) := by
+    unfold mutatePre
+    split
+    · exact ⟨⟨h.c.wf, h.c.i2, h.c.pn, h.c.conn⟩, h.brLen, h.br⟩
+    · exact h
+  have hc : Inv im (mutatePre f b).setCompiled :=
+    ⟨⟨hm.c.wf, hm.c.i2, hm.c.pn, hm.c.conn⟩, hm.brLen, hm.br⟩
+  unfold compile
+  split
+  · exact h
+  · split
+    · exact h
+    · split
+      · exact hm
+      · exact hc
+
+theorem addEdge_inv (f : Facts) (im : Impl) (ord : Ord) (hv : ord.Valid) (b : Builder) (s e : Key)
+    (h : Inv im b) : Inv im (addEdge f im ord b s e false false none).1 := by
+  unfold addEdge
+  split
+  · exact h
+  · split
+    · exact h
+    · simp only [Bool.and_self, Bool.false_eq_true, ↓reduceIte]
+      apply guarded_preserves (P := Inv im) _ _ _ h (fun k => h.setErr k)
+      intro b' hb
+      unfold addEdgeBody at hb
+      simp only [Bool.false_eq_true, ↓reduceIte] at hb
+      split at hb
+      · simp at hb
+      · split at hb
+        · simp at hb
+        · split at hb
+          · simp at hb
+          · split at hb
+            · simp at hb
+            · rename_i hs1 he1 hs2 he2
+              split at hb
+              · simp at hb
+              · rename_i b1 hb1
+                split at hb1
+                · simp at hb1
+                · simp only [Except.ok.injEq] at hb1
+                  split at hb
+                  · simp at hb
+                  · split at hb
+                    · simp at hb
+                    · rename_i b2 hupd
+                      simp only [Except.ok.injEq] at hb
+                      subst hb
+                      subst hb1
+                      -- b1 differs from b in control edges / start / end lists only
+                      have hc1 : InvC im
+                          ({ b with controlEdges := b.controlEdges ++ [(s, e)],
+                                    startNodes := if s = START then b.startNodes ++ [e] else b.startNodes,
+                                    endNodes := if e = END then b.endNodes ++ [s] else b.endNodes } : Builder) [] :=
+                        ⟨h.c.wf, h.c.i2, h.c.pn, h.c.conn⟩
+                      have hs' : b.hasNode s = true ∨ b.nodeOut s ≠ none := by
+                        by_cases hh : b.hasNode s = true
+                        · exact Or.inl hh
+                        · right
+                          have : s = START := by simpa [hh] using hs2
+                          simp [Builder.nodeOut, this]
+                      have he' : b.hasNode e = true ∨ b.nodeIn e ≠ none := by
+                        by_cases hh : b.hasNode e = true
+                        · exact Or.inl hh
+                        · right
+                          have : e = END := by simpa [hh] using he2
+                          unfold Builder.nodeIn
+                          by_cases h3 : e = START
+                          · simp [h3]
+                          · subst this; simp only [h3, ↓reduceIte]; simp
+                      obtain ⟨hc2, hfr, hmo⟩ := data_step im ord hv _ b2 [] s e hc1 hs' he' hupd
+                      refine ⟨⟨hc2.wf, hc2.i2, hc2.pn, ?_⟩, ?_, ?_⟩
+                      · intro s' e' hc
+                        apply hc2.conn
+                        rcases hc with hc | hc
+                        · rcases hc with hc | hc
+                          · rcases List.mem_append.mp hc with hc | hc
+                            · exact Or.inl (Or.inl hc)
+                            · right; simpa using hc
+                          · exact Or.inl (Or.inr hc)
+                        · simp at hc
+                      · show b2.branches.length = b2.preBranch.length
+                        rw [hfr.branches, hfr.preBranch]; exact h.brLen
+                      · intro p hp
+                        have hp' : p ∈ b.branches.zip (b.preBranch.map (·.2)) := by
+                          have : b2.branches.zip (b2.preBranch.map (·.2)) = b.branches.zip (b.preBranch.map (·.2)) := by
+                            rw [hfr.branches, hfr.preBranch]
+                          rw [← this]; exact hp
+                        have hm' : Mono b b2 := ⟨hmo.tin, hmo.tout, hmo.may⟩
+                        have := (h.br p hp').mono hm'
+                        exact this
+
+
+theorem InvC.weaken {im : Impl} {b : Builder} {X X' : List (Key × Key)} (h : InvC im b X)
+    (hsub : ∀ p ∈ X', p ∈ X) : InvC im b X' :=
+  ⟨h.wf, h.i2, h.pn, fun s e hc => h.conn s e (hc.imp id (hsub _))⟩
+
+theorem branchEnds_spec (im : Impl) (ord : Ord) (hv : ord.Valid) (s : Key) :
+    ∀ (es : List Key) (b : Builder) (X : List (Key × Key)) (b' : Builder),
+      InvC im b X → (b.hasNode s = true ∨ b.nodeOut s ≠ none) →
+      branchEnds im ord s es b = .ok b' →
+      ∃ X', InvC im b' X' ∧ (∀ p ∈ X, p ∈ X') ∧ (∀ e ∈ es, (s, e) ∈ X') ∧ Mono b b' ∧
+        b'.dataEdges = b.dataEdges ∧ b'.branches = b.branches ∧ b'.preBranch = b.preBranch := by
+  intro es
+  induction es with
+  | nil =>
+    intro b X b' hi _ h
+    simp only [branchEnds, Except.ok.injEq] at h
+    subst h
+    exact ⟨X, hi, fun _ hp => hp, by simp, Mono.refl _, rfl, rfl, rfl⟩
+  | cons e es ih =>
+    intro b X b' hi hs h
+    simp only [branchEnds] at h
+    split at h
+    · simp at h
+    · rename_i he
+      split at h
+      · simp at h
+      · rename_i b1 hupd
+        have he' : b.hasNode e = true ∨ b.nodeIn e ≠ none := by
+          by_cases hh : b.hasNode e = true
+          · exact Or.inl hh
+          · right
+            have : e = END := by simpa [hh] using he
+            unfold Builder.nodeIn
+            by_cases h3 : e = START
+            · simp [h3]
+            · subst this; simp only [h3, ↓reduceIte]; simp
+        obtain ⟨hc1, hfr, hmo⟩ := data_step im ord hv b b1 X s e hi hs he' hupd
+        let b1' : Builder :=
+          { b1 with startNodes := if s = START then b1.startNodes ++ [e] else b1.startNodes,
+                    endNodes := if e = END then b1.endNodes ++ [s] else b1.endNodes }
+        have hc1' : InvC im b1' ((s, e) :: X) := ⟨hc1.wf, hc1.i2, hc1.pn, hc1.conn⟩
+        have hs1 : b1'.hasNode s = true ∨ b1'.nodeOut s ≠ none := by
+          rcases hs with hs | hs
+          · left; show b1.hasNode s = true; rw [hfr.hasNode]; exact hs
+          · right
+            rcases ho : b.nodeOut s with _ | A
+            · exact absurd ho hs
+            · show b1.nodeOut s ≠ none
+              rw [hmo.tout s A ho]; simp
+        obtain ⟨X', hx1, hx2, hx3, hm2, e1, e2, e3⟩ := ih b1' ((s, e) :: X) b' hc1' hs1 h
+        refine ⟨X', hx1, fun p hp => hx2 p (List.mem_cons_of_mem _ hp), ?_, ?_, ?_, ?_, ?_⟩
+        · intro e0 he0
+          rcases List.mem_cons.mp he0 with r | r
+          · subst r; exact hx2 _ List.mem_cons_self
+          · exact hx3 e0 r
+        · exact (Mono.mk hmo.tin hmo.tout hmo.may : Mono b b1').trans hm2
+        · rw [e1]; exact hfr.dataEdges
+        · rw [e2]; exact hfr.branches
+        · rw [e3]; exact hfr.preBranch
+
+/-- the part of addBranch after the branch condition type has been accepted -/
+theorem addBranch_tail (im : Impl) (ord : Ord) (hv : ord.Valid) (b b1 b' : Builder) (s : Key) (t : Ty)
+    (ends : List Key) (flag : Bool) (h : Inv im b)
+    (hs2 : ¬(!b.hasNode s && s != START) = true)
+    (hw1 : WF b1) (hq1 : Q b1 t) (hp1 : PN b1) (hm1 : Mono b b1) (hf1 : Frame b b1)
+    (htv1 : b1.toValidate = b.toValidate)
+    (hsb1 : SoundBr im b1 { src := s, inTy := t, ends := ends, noData := false } flag)
+    (hb : (match update im ord { b1 with preBranch := b1.preBranch ++ [(s, flag)] } with
+      | .error k => Except.error k
+      | .ok b3 =>
+        match branchEnds im ord s (ord.ends b3 ends) b3 with
+        | .error k => Except.error k
+        | .ok b4 =>
+          (Except.ok ({ b4 with branches := b4.branches ++ [({ src := s, inTy := t, ends := ends, noData := false } : BranchRec)] } : Builder)
+            : Except ErrKind Builder))
+      = .ok b') : Inv im b' := by
+  split at hb
+  · simp at hb
+  · rename_i b3 hupd
+    split at hb
+    · simp at hb
+    · rename_i b4 hends
+      simp only [Except.ok.injEq] at hb
+      subst hb
+      let b2 : Builder := { b1 with preBranch := b1.preBranch ++ [(s, flag)] }
+      have hw2 : WF b2 := hw1
+      have hq2 : Q b2 t := hq1
+      have hp2 : PN b2 := hp1
+      obtain ⟨hu, hi3, hpn3⟩ := update_spec im ord hv t b2 b3 hw2 hq2 hp2 hupd
+      have hm13 : Mono b1 b3 := ⟨hu.step.mono.tin, hu.step.mono.tout, hu.step.mono.may⟩
+      have hde3 : b3.dataEdges = b.dataEdges := by rw [hu.frame.dataEdges]; exact hf1.dataEdges
+      have hbr3 : b3.branches = b.branches := by rw [hu.frame.branches]; exact hf1.branches
+      have hpb3 : b3.preBranch = b.preBranch ++ [(s, flag)] := by
+        rw [hu.frame.preBranch]; show b1.preBranch ++ [(s, flag)] = _; rw [hf1.preBranch]
+      have hc3 : InvC im b3 [] := by
+        refine ⟨hu.wf, hi3, hpn3, ?_⟩
+        intro s' e' hc
+        rcases hc with hc | hc
+        · have hcb : Conn b s' e' := by
+            unfold Conn at hc ⊢; rw [hde3, hbr3] at hc; exact hc
+          rcases h.c.conn s' e' (Or.inl hcb) with ⟨x, hx, hd⟩ | hsd
+          · have hx1 : x ∈ getSlice b2.toValidate s' := by
+              show x ∈ getSlice b1.toValidate s'; rw [htv1]; exact hx
+            rcases hu.resolved s' x hx1 with r' | r'
+            · exact Or.inl ⟨x, r', hd⟩
+            · exact Or.inr (hd ▸ r')
+          · exact Or.inr ((hsd.mono hm1).mono hm13)
+        · simp at hc
+      have hs3 : b3.hasNode s = true ∨ b3.nodeOut s ≠ none := by
+        by_cases hh : b.hasNode s = true
+        · left
+          have e1 : b3.hasNode s = b2.hasNode s := hu.frame.hasNode s
+          have e2 : b2.hasNode s = b1.hasNode s := rfl
+          rw [e1, e2, hf1.hasNode]; exact hh
+        · right
+          have hst : s = START := by simpa [hh] using hs2
+          have : b.nodeOut s = some b.inT := by simp [Builder.nodeOut, hst]
+          rw [hm13.tout s _ (hm1.tout s _ this)]; simp
+      obtain ⟨X', hx1, _, hx3, hm34, e1, e2, e3⟩ := branchEnds_spec im ord hv s _ b3 [] b4 hc3 hs3 hends
+      have hm04 : Mono b b4 := (hm1.trans hm13).trans hm34
+      have hpb : b4.preBranch = b.preBranch ++ [(s, flag)] := by rw [e3]; exact hpb3
+      have hbr : b4.branches = b.branches := by rw [e2]; exact hbr3
+      refine ⟨⟨hx1.wf, hx1.i2, hx1.pn, ?_⟩, ?_, ?_⟩
+      · intro s' e' hc
+        apply hx1.conn
+        rcases hc with hc | hc
+        · rcases hc with hc | ⟨br, hbrm, hb1', hb2, hb3⟩
+          · exact Or.inl (Or.inl hc)
+          · rcases List.mem_append.mp hbrm with hbrm | hbrm
+            · exact Or.inl (Or.inr ⟨br, hbrm, hb1', hb2, hb3⟩)
+            · simp only [List.mem_singleton] at hbrm
+              subst hbrm
+              subst hb1'
+              right
+              exact hx3 e' (((hv.ends b3 ends).mem_iff).mpr hb2)
+        · simp at hc
+      · show (b4.branches ++ [_]).length = b4.preBranch.length
+        rw [hpb, hbr]; simp [h.brLen]
+      · intro p hp
+        have hz : (b4.branches ++ [({ src := s, inTy := t, ends := ends, noData := false } : BranchRec)]).zip
+              (b4.preBranch.map (·.2)) =
+            b.branches.zip (b.preBranch.map (·.2)) ++
+              [(({ src := s, inTy := t, ends := ends, noData := false } : BranchRec), flag)] := by
+          rw [hpb, hbr, List.map_append]
+          rw [List.zip_append (by simp [h.brLen])]
+          simp
+        have hp' : p ∈ b.branches.zip (b.preBranch.map (·.2)) ++
+              [(({ src := s, inTy := t, ends := ends, noData := false } : BranchRec), flag)] := by
+          rw [← hz]; exact hp
+        rcases List.mem_append.mp hp' with hp' | hp'
+        · have := (h.br p hp').mono hm04
+          exact this
+        · simp only [List.mem_singleton] at hp'
+          subst hp'
+          have := (hsb1.mono hm13).mono hm34
+          exact this
+
+theorem addBranch_inv (f : Facts) (hg : f.branchGuarded = true) (hpr : f.branchPropagates = true)
+    (im : Impl) (ord : Ord) (hv : ord.Valid) (b : Builder) (s : Key) (t : Ty) (ends : List Key)
+    (h : Inv im b) : Inv im (addBranch f im ord b s t ends false).1 := by
+  unfold addBranch
+  apply guarded_preserves (P := Inv im) _ _ _ h (fun k => h.setErr k)
+  intro b' hb
+  unfold addBranchBody at hb
+  simp only [hg, hpr, Bool.not_true, Bool.false_or, ↓reduceIte, Bool.false_eq_true] at hb
+  split at hb
+  · simp at hb
+  · split at hb
+    · simp at hb
+    · split at hb
+      · simp at hb
+      · rename_i hs1 hs2 hlen
+        -- the state after the (guarded) typing of a pass-through start node
+        generalize hb1 : (if (s != START && isPassthrough b s && (b.nodeIn s).isNone) = true then b.setTy s t else b) = b1 at hb
+        have hfacts : WF b1 ∧ Q b1 t ∧ PN b1 ∧ Mono b b1 ∧ Frame b b1 ∧ b1.toValidate = b.toValidate := by
+          split at hb1
+          · rename_i hcond
+            subst hb1
+            have hin : b.nodeIn s = none := by
+              simp only [Bool.and_eq_true, Option.isNone_iff_eq_none] at hcond; exact hcond.2
+            have hon : b.nodeOut s = none := (h.c.wf.untyped_iff s).mp hin
+            have hst := StepT.setTy b s t (Or.inl hin) (Or.inl hon)
+            exact ⟨h.c.wf.setTy s t, (h.c.i2.q t).step hst (fun _ _ hx => hx),
+              h.c.pn.step hst.mono (Frame.setTy b s t) (fun _ _ hx => hx), hst.mono, Frame.setTy b s t, rfl⟩
+          · subst hb1
+            exact ⟨h.c.wf, h.c.i2.q t, h.c.pn, Mono.refl _, Frame.refl _, rfl⟩
+        obtain ⟨hw1, hq1, hp1, hm1, hf1, htv1⟩ := hfacts
+        rcases hr : checkAssignable im (b1.nodeOut s) (some t) with _ | _ | _
+        · simp [hr] at hb
+        · simp only [hr] at hb
+          refine addBranch_tail im ord hv b b1 b' s t ends false h hs2 hw1 hq1 hp1 hm1 hf1 htv1 ?_ hb
+          unfold SoundBr; simp only [hr]
+        · simp only [hr] at hb
+          refine addBranch_tail im ord hv b b1 b' s t ends true h hs2 hw1 hq1 hp1 hm1 hf1 htv1 ?_ hb
+          unfold SoundBr; simp only [hr]
+
 end EinoV.Build
